@@ -99,7 +99,7 @@ pub(crate) mod verif_k3 {
         let e = build(m, cof(tt, v, false), level + 1);
         match <K::Rules as DiagramRules<_, _, _>>::reduce(m, level, [t, e]).then_insert(m, level) {
             Ok(r) => r,
-            Err(_) => panic!("build: out of memory"),
+            Err(_) => panic!("build: node allocation failed"),
         }
     }
 
@@ -365,69 +365,102 @@ pub(crate) mod verif_k3 {
     }
 
     // ---- Kani harnesses --------------------------------------------------------
+    // One harness per (diagram set, operation instance): everything is concrete, so CBMC's
+    // symbolic execution constant-folds the whole run (an interpreter with memory-safety,
+    // overflow, `unreachable_unchecked`/`unwrap_unchecked` and assertion checking).
+    // Three `*_any` harnesses use a `kani::any()` selector that is dispatched to the same
+    // concrete calls (CBMC symex is super-linear in the trace length, so the selector form
+    // is only affordable for the small set S3_A).
+    // Every harness (every selector branch) ends in a `kani::cover!`: all must be SATISFIED,
+    // otherwise the run is reported as vacuous.
     #[cfg(kani)]
     mod proofs {
         use super::*;
 
-        /// feasibility gate: 3 levels, {x0&x1, (x0&x1)|x2}, level_down(0)
-        #[kani::proof]
-        fn gate_bdd3_a_level_down_0() {
-            scenario_level_down::<KBdd>(3, &S3_A, 0);
+        macro_rules! level_down_case {
+            ($name:ident, $K:ty, $n:expr, $S:expr, $l:expr) => {
+                #[kani::proof]
+                fn $name() {
+                    scenario_level_down::<$K>($n, &$S, $l);
+                    kani::cover!(true, "end reached");
+                }
+            };
+        }
+        macro_rules! level_down2_case {
+            ($name:ident, $K:ty, $n:expr, $S:expr, $l1:expr, $l2:expr) => {
+                #[kani::proof]
+                fn $name() {
+                    scenario_level_down2::<$K>($n, &$S, $l1, $l2);
+                    kani::cover!(true, "end reached");
+                }
+            };
+        }
+        macro_rules! set_order_case {
+            ($name:ident, $K:ty, $n:expr, $S:expr, $o:expr) => {
+                #[kani::proof]
+                fn $name() {
+                    scenario_set_order::<$K>($n, &$S, &$o);
+                    kani::cover!(true, "end reached");
+                }
+            };
+        }
+        macro_rules! set_order2_case {
+            ($name:ident, $K:ty, $n:expr, $S:expr, $o1:expr, $o2:expr) => {
+                #[kani::proof]
+                fn $name() {
+                    scenario_set_order2::<$K>($n, &$S, &$o1, &$o2);
+                    kani::cover!(true, "end reached");
+                }
+            };
         }
 
-        fn pick_level(n: u32) -> LevelNo {
-            let l: LevelNo = kani::any();
-            kani::assume(l + 1 < n);
-            l
-        }
+        // ---- feasibility gate ----
+        level_down_case!(gate_bdd3_a_level_down_0, KBdd, 3, S3_A, 0);
 
+        // ---- selector form (small set only) ----
         #[kani::proof]
         fn bdd3_a_level_down_any() {
-            // symbolic level, dispatched to concrete calls
-            match pick_level(3) {
-                0 => scenario_level_down::<KBdd>(3, &S3_A, 0),
-                _ => scenario_level_down::<KBdd>(3, &S3_A, 1),
+            let l: LevelNo = kani::any();
+            kani::assume(l < 2);
+            match l {
+                0 => {
+                    scenario_level_down::<KBdd>(3, &S3_A, 0);
+                    kani::cover!(true, "l = 0 done");
+                }
+                _ => {
+                    scenario_level_down::<KBdd>(3, &S3_A, 1);
+                    kani::cover!(true, "l = 1 done");
+                }
             }
-        }
-        #[kani::proof]
-        fn bdd3_b_level_down_any() {
-            match pick_level(3) {
-                0 => scenario_level_down::<KBdd>(3, &S3_B, 0),
-                _ => scenario_level_down::<KBdd>(3, &S3_B, 1),
-            }
-        }
-        #[kani::proof]
-        fn bdd3_c_level_down_any() {
-            match pick_level(3) {
-                0 => scenario_level_down::<KBdd>(3, &S3_C, 0),
-                _ => scenario_level_down::<KBdd>(3, &S3_C, 1),
-            }
-        }
-        #[kani::proof]
-        fn bdd3_b_level_down_twice_any() {
-            let l1 = pick_level(3);
-            let l2 = pick_level(3);
-            match (l1, l2) {
-                (0, 0) => scenario_level_down2::<KBdd>(3, &S3_B, 0, 0),
-                (0, _) => scenario_level_down2::<KBdd>(3, &S3_B, 0, 1),
-                (_, 0) => scenario_level_down2::<KBdd>(3, &S3_B, 1, 0),
-                _ => scenario_level_down2::<KBdd>(3, &S3_B, 1, 1),
-            }
-        }
-
-        fn pick_perm3() -> usize {
-            let k: usize = kani::any();
-            kani::assume(k < 6);
-            k
         }
         fn set_order_any<K: RefKind>(specs: &[u16]) {
-            match pick_perm3() {
-                0 => scenario_set_order::<K>(3, specs, &PERM3[0]),
-                1 => scenario_set_order::<K>(3, specs, &PERM3[1]),
-                2 => scenario_set_order::<K>(3, specs, &PERM3[2]),
-                3 => scenario_set_order::<K>(3, specs, &PERM3[3]),
-                4 => scenario_set_order::<K>(3, specs, &PERM3[4]),
-                _ => scenario_set_order::<K>(3, specs, &PERM3[5]),
+            let k: usize = kani::any();
+            kani::assume(k < 6);
+            match k {
+                0 => {
+                    scenario_set_order::<K>(3, specs, &PERM3[0]);
+                    kani::cover!(true, "order 012 done");
+                }
+                1 => {
+                    scenario_set_order::<K>(3, specs, &PERM3[1]);
+                    kani::cover!(true, "order 021 done");
+                }
+                2 => {
+                    scenario_set_order::<K>(3, specs, &PERM3[2]);
+                    kani::cover!(true, "order 102 done");
+                }
+                3 => {
+                    scenario_set_order::<K>(3, specs, &PERM3[3]);
+                    kani::cover!(true, "order 120 done");
+                }
+                4 => {
+                    scenario_set_order::<K>(3, specs, &PERM3[4]);
+                    kani::cover!(true, "order 201 done");
+                }
+                _ => {
+                    scenario_set_order::<K>(3, specs, &PERM3[5]);
+                    kani::cover!(true, "order 210 done");
+                }
             }
         }
         #[kani::proof]
@@ -435,12 +468,59 @@ pub(crate) mod verif_k3 {
             set_order_any::<KBdd>(&S3_A);
         }
         #[kani::proof]
-        fn bdd3_b_set_var_order_any() {
-            set_order_any::<KBdd>(&S3_B);
+        fn bcdd3_a_set_var_order_any() {
+            set_order_any::<KBcdd>(&S3_A);
         }
-        #[kani::proof]
-        fn bdd3_c_set_var_order_any() {
-            set_order_any::<KBdd>(&S3_C);
-        }
+
+        // ---- simple BDD, 3 levels: level_down ----
+        level_down_case!(bdd3_b_level_down_0, KBdd, 3, S3_B, 0);
+        level_down_case!(bdd3_b_level_down_1, KBdd, 3, S3_B, 1);
+        level_down_case!(bdd3_c_level_down_0, KBdd, 3, S3_C, 0);
+        level_down_case!(bdd3_c_level_down_1, KBdd, 3, S3_C, 1);
+        level_down2_case!(bdd3_b_twice_level_down_0_0, KBdd, 3, S3_B, 0, 0);
+        level_down2_case!(bdd3_b_twice_level_down_0_1, KBdd, 3, S3_B, 0, 1);
+        level_down2_case!(bdd3_b_twice_level_down_1_0, KBdd, 3, S3_B, 1, 0);
+        level_down2_case!(bdd3_c_twice_level_down_1_1, KBdd, 3, S3_C, 1, 1);
+
+        // ---- simple BDD, 3 levels: set_var_order_seq, all 6 total orders ----
+        set_order_case!(bdd3_b_set_var_order_012, KBdd, 3, S3_B, [0, 1, 2]);
+        set_order_case!(bdd3_b_set_var_order_021, KBdd, 3, S3_B, [0, 2, 1]);
+        set_order_case!(bdd3_b_set_var_order_102, KBdd, 3, S3_B, [1, 0, 2]);
+        set_order_case!(bdd3_b_set_var_order_120, KBdd, 3, S3_B, [1, 2, 0]);
+        set_order_case!(bdd3_b_set_var_order_201, KBdd, 3, S3_B, [2, 0, 1]);
+        set_order_case!(bdd3_b_set_var_order_210, KBdd, 3, S3_B, [2, 1, 0]);
+        set_order_case!(bdd3_c_set_var_order_021, KBdd, 3, S3_C, [0, 2, 1]);
+        set_order_case!(bdd3_c_set_var_order_102, KBdd, 3, S3_C, [1, 0, 2]);
+        set_order_case!(bdd3_c_set_var_order_120, KBdd, 3, S3_C, [1, 2, 0]);
+        set_order_case!(bdd3_c_set_var_order_201, KBdd, 3, S3_C, [2, 0, 1]);
+        set_order_case!(bdd3_c_set_var_order_210, KBdd, 3, S3_C, [2, 1, 0]);
+        // partial requests (sort_order completes them via MinSegTree)
+        set_order_case!(bdd3_b_set_var_order_partial_10, KBdd, 3, S3_B, [1, 0]);
+        set_order_case!(bdd3_b_set_var_order_partial_20, KBdd, 3, S3_B, [2, 0]);
+        set_order_case!(bdd3_b_set_var_order_partial_21, KBdd, 3, S3_B, [2, 1]);
+        // twice in a row
+        set_order2_case!(bdd3_b_twice_set_var_order_102_021, KBdd, 3, S3_B, [1, 0, 2], [0, 2, 1]);
+        set_order2_case!(bdd3_b_twice_set_var_order_210_012, KBdd, 3, S3_B, [2, 1, 0], [0, 1, 2]);
+        set_order2_case!(bdd3_b_twice_set_var_order_120_201, KBdd, 3, S3_B, [1, 2, 0], [2, 0, 1]);
+        set_order2_case!(bdd3_c_twice_set_var_order_201_120, KBdd, 3, S3_C, [2, 0, 1], [1, 2, 0]);
+
+        // ---- simple BDD, 4 levels ----
+        level_down_case!(bdd4_a_level_down_0, KBdd, 4, S4_A, 0);
+        level_down_case!(bdd4_a_level_down_1, KBdd, 4, S4_A, 1);
+        level_down_case!(bdd4_a_level_down_2, KBdd, 4, S4_A, 2);
+        set_order_case!(bdd4_a_set_var_order_3210, KBdd, 4, S4_A, [3, 2, 1, 0]);
+        set_order_case!(bdd4_a_set_var_order_1302, KBdd, 4, S4_A, [1, 3, 0, 2]);
+        set_order_case!(bdd4_a_set_var_order_partial_30, KBdd, 4, S4_A, [3, 0]);
+
+        // ---- BDD with complement edges (real BCDDRules), 3 levels ----
+        level_down_case!(bcdd3_b_level_down_0, KBcdd, 3, S3_B, 0);
+        level_down_case!(bcdd3_b_level_down_1, KBcdd, 3, S3_B, 1);
+        level_down_case!(bcdd3_c_level_down_0, KBcdd, 3, S3_C, 0);
+        level_down_case!(bcdd3_c_level_down_1, KBcdd, 3, S3_C, 1);
+        set_order_case!(bcdd3_b_set_var_order_102, KBcdd, 3, S3_B, [1, 0, 2]);
+        set_order_case!(bcdd3_b_set_var_order_120, KBcdd, 3, S3_B, [1, 2, 0]);
+        set_order_case!(bcdd3_b_set_var_order_210, KBcdd, 3, S3_B, [2, 1, 0]);
+        set_order_case!(bcdd3_c_set_var_order_201, KBcdd, 3, S3_C, [2, 0, 1]);
+        set_order_case!(bcdd3_c_set_var_order_210, KBcdd, 3, S3_C, [2, 1, 0]);
     }
 }
